@@ -138,7 +138,13 @@ Pairs(src)  == src \in {"xy", "libsvm", "manik"}     \* the source yields (featu
 
 (* feature j of example i has the value 10i+j (all distinct: a permuted or shifted context is noticed); *)
 (* a CSV reader yields text; a sparse example i holds feature j iff i+j is even                         *)
-FVal(c, i, j) == IF c.src \in {"csv", "csvH"} THEN S(ToString(10 * i + j)) ELSE I(10 * i + j)
+(* fv = "label" ("all example sets": nothing keeps a feature from having the value of the label): the features of a  *)
+(* dense example are drawn from the label's own alphabet - feature j of example i IS the example's label when i+j is    *)
+(* even and the next label of the alphabet otherwise - so a feature left or right of the label column equals the label  *)
+(* (0/1-coded data with a 0/1 label).  The context is still the features BY POSITION: Row inserts the label at pos.     *)
+NextL(l) == (l % 3) + 1
+FVal(c, i, j) == IF c.fv = "label" THEN Lab(c.lk, IF (i + j) % 2 = 0 THEN c.lab[i] ELSE NextL(c.lab[i]))
+                 ELSE IF c.src \in {"csv", "csvH"} THEN S(ToString(10 * i + j)) ELSE I(10 * i + j)
 RECURSIVE PresJs(_, _)
 PresJs(i, nf) == IF nf = 0 THEN <<>> ELSE PresJs(i, nf - 1) \o (IF (i + nf) % 2 = 0 THEN <<nf>> ELSE <<>>)
 Js(c, i) == IF Sparse(c.src) THEN PresJs(i, c.nf) ELSE [j \in 1..c.nf |-> j]
@@ -177,7 +183,7 @@ NeedsQuote(v) == v.t = "str" /\ v.v \in {"a ", " a", ""}
 FieldTxt(c, v) == IF ~NeedsQuote(v) THEN Txt(v) ELSE IF c.src = "arff" THEN "'" \o v.v \o "'" ELSE "\"" \o v.v \o "\""
 DenseLine(c, i) == Join([k \in 1..c.nf + 1 |-> FieldTxt(c, Row(c, i).v[k])], ",")
 ArffType(c) == CASE c.lk = "cat" -> "{" \o Join(Levels, ",") \o "}" [] c.lk = "half" -> "numeric" [] OTHER -> "string"
-ArffHead(c) == <<"@relation r">> \o [k \in 1..c.nf + 1 |-> "@attribute " \o Names(c)[k] \o " " \o (IF k - 1 = c.pos THEN ArffType(c) ELSE "numeric")] \o <<"@data">>
+ArffHead(c) == <<"@relation r">> \o [k \in 1..c.nf + 1 |-> "@attribute " \o Names(c)[k] \o " " \o (IF k - 1 = c.pos \/ c.fv = "label" THEN ArffType(c) ELSE "numeric")] \o <<"@data">>
 (* a sparse ARFF line lists "column value" for the stored columns in column order; a zero label is not stored *)
 ArffSLine(c, i) ==
   LET js == Js(c, i)
@@ -213,6 +219,8 @@ CONSTANTS MaxRows,    \* single-label example sets have 0..MaxRows examples (tex
           MaxRowsM,   \* multi-label example sets have 1..MaxRowsM examples
           NL,         \* labels in use: the first NL of each alphabet
           Srcs, Takes, Shapes, XKs,
+          MaxRowsL,   \* example sets with fv = "label" have at most MaxRowsL examples
+          FeatVals,   \* feature values of dense examples: "distinct" (10i+j) and / or "label" (drawn from the label alphabet, see FVal)
           SpellRule   \* "lower" | "upper" | "alt": how a given label type is spelled (see Spelled)
 VARIABLES case, perm, go
 vars == <<case, perm, go>>
@@ -233,6 +241,8 @@ ShapesOf(src) == CASE src = "xy" -> {<<0, 0>>} [] src \in {"libsvm", "manik"} ->
 TakesOf(src) == IF src = "xy" THEN {-1} ELSE Takes
 XKsOf(src, lk) == IF src # "xy" THEN {"-"} ELSE IF IsMulti(lk) THEN XKs \cap {"tuple", "none"} ELSE XKs
 NRange(src, lk) == IF IsMulti(lk) THEN 1..MaxRowsM ELSE IF Text(src) THEN 1..MaxRows ELSE 0..MaxRows
+FVsOf(src) == IF Dense(src) THEN FeatVals ELSE {"distinct"}
+NRangeFV(src, lk, fv) == IF fv = "label" THEN {n \in NRange(src, lk) : n <= MaxRowsL} ELSE NRange(src, lk)
 Choices(lk) == IF IsMulti(lk) THEN {s \in MSeqs : \A k \in DOMAIN s : s[k] <= NL} ELSE 1..NL
 
 (* How the given label type is spelled (for every source, label kind and construction): SpellRule   *)
@@ -245,10 +255,10 @@ Spelled(lt, lk, n, lab) ==
   ELSE IF (n + (IF IsMulti(lk) THEN Len(lab[1]) ELSE lab[1])) % 2 = 1 THEN Upper(lt) ELSE lt
 Init == /\ go = FALSE
         /\ \E src \in Srcs : \E cb \in Combos(src) : \E sh \in ShapesOf(src) : \E by \in Bys(src) :
-           \E tk \in TakesOf(src) : \E xk \in XKsOf(src, cb[1]) : \E n \in NRange(src, cb[1]) :
+           \E tk \in TakesOf(src) : \E fv \in FVsOf(src) : \E xk \in XKsOf(src, cb[1]) : \E n \in NRangeFV(src, cb[1], fv) :
            \E lab \in [1..n -> Choices(cb[1])] :
              /\ case = [src |-> src, lk |-> cb[1], lt |-> Spelled(cb[2], cb[1], n, lab), nf |-> sh[1], pos |-> sh[2], by |-> by,
-                        take |-> tk, xk |-> xk, n |-> n, lab |-> lab]
+                        take |-> tk, fv |-> fv, xk |-> xk, n |-> n, lab |-> lab]
              /\ perm = Order(n, tk)
 Next == ~go /\ go' = TRUE /\ UNCHANGED <<case, perm>>
 Spec == Init /\ [][Next]_vars
@@ -311,6 +321,11 @@ SameActions == (go /\ Data # <<>>) =>
 ContextIsRowWithoutLabel == (go /\ Dense(case.src)) =>
   \A i \in 1..case.n : /\ InsertAt(X(case, i).v, case.pos, Y(case, i)) = Row(case, i).v
                        /\ Len(X(case, i).v) = case.nf
+(* fv = "label" does what it is for: in every dense example with two features (one: every other example) a feature has the value of the label, and *)
+(* (two features, label last) it stands LEFT of the label next to a different value, so position and value disagree    *)
+FeatureEqualsLabel == (go /\ case.fv = "label" /\ case.nf >= 1) =>
+  \A i \in 1..case.n : /\ (case.nf >= 2 \/ i % 2 = 1) => (\E j \in 1..case.nf : X(case, i).v[j] = Y(case, i))
+                       /\ (case.nf = 2 /\ i % 2 = 1) => (X(case, i).v[1] = Y(case, i) /\ X(case, i).v[2] # Y(case, i))
 (* the expectation is a function of the meaning of the label type, not of its spelling *)
 SpellingIrrelevant == (go /\ Data # <<>>) =>
   /\ EffType(Upper(case.lt), Data) = T /\ EffType(Norm(case.lt), Data) = T
